@@ -74,8 +74,25 @@ func textOf(v any) string {
 	return fmt.Sprint(v)
 }
 
+// canonDefault: what a type-sniffing round trip makes of a scalar default (input classifier for the
+// known finding F-C16-default-canonicalised; independent of the repository code).
+func canonDefault(d string) string {
+	l := strings.ToLower(d)
+	switch {
+	case l == "true" || l == "false":
+		return l
+	case numberRe.MatchString(d):
+		var f float64
+		fmt.Sscanf(d, "%g", &f)
+		return fmt.Sprintf("%v", f)
+	case len(d) > 1 && ((d[0] == '\'' && d[len(d)-1] == '\'') || (d[0] == '"' && d[len(d)-1] == '"')):
+		return d[1 : len(d)-1]
+	}
+	return d
+}
+
 // modelResolve: (replacement text, used defaults, status "ok" | "circular")
-func modelResolve(text string, tree map[string]any) (string, []string, int, string) {
+func modelResolve(text string, tree map[string]any, canonDefaults ...bool) (string, []string, int, string) {
 	seen := map[string]bool{}
 	var defaults []string
 	steps := 0
@@ -110,6 +127,9 @@ func modelResolve(text string, tree map[string]any) (string, []string, int, stri
 		} else if hasDef {
 			rep = def
 			defaults = append(defaults, def)
+			if len(canonDefaults) > 0 && canonDefaults[0] {
+				rep = canonDefault(def)
+			}
 		}
 		text = text[:start] + rep + text[end+1:]
 	}
@@ -267,16 +287,20 @@ func (p c16) Run(c *core.Ctx) {
 	}
 	// (i) the replacement
 	class := ""
+	wantCanon, _, _, _ := modelResolve(full, cfg.tree, true)
 	for _, d := range usedDefaults {
-		if sniffable(d) && d != "" {
-			class = "F-C16-default-canonicalised"
+		if sniffable(d) && d != "" && wantCanon != want {
+			class = "F-C16-default-canonicalised" // only granted below when the observation equals wantCanon
 		}
 	}
 	switch kind {
 	case "value", "prop":
 		if !sniffable(want) {
 			if r.Outcome() != "ok" || got != any(want) {
-				c.Fail(class, fmt.Sprintf("tag %s: field holds %q (%s), the replacement text is %q", tag, got, r.Outcome(), want), detail(nil))
+				if got != any(wantCanon) {
+					class = "" // not explained by canonicalised defaults
+				}
+				c.Fail(class, fmt.Sprintf("tag %s: field holds %q (%s), the replacement text is %q", tag, got, r.Outcome(), want), detail(map[string]any{"replacement_with_canonicalised_defaults": wantCanon}))
 				return
 			}
 		} else {
